@@ -8,6 +8,7 @@ argument inside double quotes), no marker command ran, no file was created or re
 import json
 import random
 
+import structure
 from common import Report, ToolError, chars, check_action_coverage, log, run_cases, run_tlc, std_main
 
 
@@ -125,6 +126,8 @@ def runner(rep, tier, seed, replay):
         jobs.append({"entry": "c", "text": line, "files": files, "vhfiles": vh, "env": dict(env, VH_DELAY_IF_LAST_AMP="200"), "timeout": 8,
                      "snapshot_log_at_exit": True, "linger": 1.0 if chars(c["pay"]) == "&" else None})
         meta.append((c, line, b, a, files))
+    # the same lines as the head of `if` / `else if` / `while` (separate code path: scripting.rs::run_exp_test_br)
+    structure.check_heads(rep, jobs, random.Random(seed), 150 if tier == "quick" else 1500, "C13")
     results = run_cases(jobs)
     distinct = set()
     for (c, line, b, a, files), res in zip(meta, results):
